@@ -147,6 +147,9 @@ def plan(tier, seed):
     for form in FORMS:
         for r in range(3 if q else 60):
             specs.append({"kind": "alias_forms", "form": form, "rep": r})
+    for sp in specs:  # rare kinds carry required monitors: never dropped by the soft time budget
+        if sp["kind"] in ("names", "big_grid", "global_state", "layout"):
+            sp["_must_run"] = True
     rng = np.random.default_rng([seed, 12, 3])
     order = rng.permutation(len(specs))
     return [specs[0]] + [specs[i] for i in order if i != 0]
